@@ -952,6 +952,14 @@ namespace hs
                                                "upstream",
                     arena_cache0);
 
+        // a request above the advertised maxima that is served: said first, as what it is (the memory it got is
+        // usually too small, which the checks below would report under another property's name)
+        if (in_over_ && c.bounded_max)
+            violate("C18,C03", "above_max_succeeded", "a request above the allocator's maxima (node max %zu, array "
+                                                      "max %zu, alignment max %zu) succeeded: size=%zu count=%zu "
+                                                      "align=%zu",
+                    S.o->max_node(), S.o->max_array(), S.o->max_align(), r.size, r.count, r.align);
+
         // --- the allocation itself: C01 / C02 ---
         auto& a  = shadow_.add(cprop("C01,C02"), p, usable, r.align, idx, S.o->owner, S.o->header, true);
         // (a fresh allocation that overlaps a live one, or runs past its block, is not "size usable bytes" either)
